@@ -34,6 +34,24 @@ type conn struct {
 type world struct {
 	st    *bubble.Stack
 	conns map[string]*conn // path prefix -> connection that sent it
+	// abandoned: requests the backend had not seen yet when their client closed the connection. Whether such a request
+	// is still served is decided between goroutines of net/http the explorer does not own; it is judged like any other
+	// if it arrives, but it is not part of the observation the determinism self-check compares.
+	abandoned map[string]bool
+}
+
+// closeConn closes a client connection, noting the requests it abandons.
+func (w *world) closeConn(c *conn) {
+	seen := map[string]bool{}
+	for _, r := range w.st.Backend.All() {
+		seen[r.Path] = true
+	}
+	for p := range c.paths {
+		if !seen[p] {
+			w.abandoned[p] = true
+		}
+	}
+	c.cl.Close()
 }
 
 func (w *world) h2req(c *conn, stream uint32, path string, prio *h2wire.Prio, order []string) {
@@ -75,7 +93,7 @@ func runOne(t *testing.T, c *mc.Chooser) (out mc.Outcome) {
 		gates := bubble.NewGates("proxyserver.serveConn.handshook", "proxyserver.serveConn.beforeSend", "hack.ChannelListener.accepted")
 		defer gates.Uninstall()
 		st := bubble.NewStack(bubble.StackOpts{Injectors: fingerproxy.DefaultHeaderInjectors(), HandshakeTimeout: 10 * time.Second})
-		w := &world{st: st, conns: map[string]*conn{}}
+		w := &world{st: st, conns: map[string]*conn{}, abandoned: map[string]bool{}}
 		shared := memnet.TCPAddr("198.51.100.7", 44444) // A and B report the same peer address
 		var a, b, c1, c2 *conn
 		mk := func(name string, addr any, h bubble.Hello) *conn {
@@ -110,7 +128,7 @@ func runOne(t *testing.T, c *mc.Chooser) (out mc.Outcome) {
 						w.h2req(a, 3, "/a2", nil, []string{":method", ":path", ":authority", ":scheme"})
 					}
 				}},
-				{Name: "close", Do: func() { a.cl.Close() }},
+				{Name: "close", Do: func() { w.closeConn(a) }},
 			}},
 			{Name: "B", Steps: []bubble.Step{
 				{Name: "connect h1 (firefox, same peer address as A)", Do: func() {
@@ -126,7 +144,7 @@ func runOne(t *testing.T, c *mc.Chooser) (out mc.Outcome) {
 						w.h1req(b, "/b2")
 					}
 				}},
-				{Name: "close", Do: func() { b.cl.Close() }},
+				{Name: "close", Do: func() { w.closeConn(b) }},
 			}},
 			{Name: "C", Steps: []bubble.Step{
 				{Name: "connect h2 (safari)", Do: func() {
@@ -152,7 +170,7 @@ func runOne(t *testing.T, c *mc.Chooser) (out mc.Outcome) {
 						w.h2req(c1, 27, "/c1b", nil, []string{":method", ":scheme", ":path", ":authority"})
 					}
 				}},
-				{Name: "disconnect", Do: func() { c1.cl.Close() }},
+				{Name: "disconnect", Do: func() { w.closeConn(c1) }},
 				{Name: "reconnect h1 (chrome102 without ec_point_formats)", Do: func() {
 					// a hello WITHOUT ec_point_formats (legal; RFC 8422 then assumes uncompressed): a fingerprint field that is
 					// empty for this connection while every other connection has it
@@ -172,7 +190,7 @@ func runOne(t *testing.T, c *mc.Chooser) (out mc.Outcome) {
 						w.h1req(c2, "/c2")
 					}
 				}},
-				{Name: "close", Do: func() { c2.cl.Close() }},
+				{Name: "close", Do: func() { w.closeConn(c2) }},
 			}},
 		}
 		named := 0
@@ -218,6 +236,9 @@ func runOne(t *testing.T, c *mc.Chooser) (out mc.Outcome) {
 				}
 			} else if len(h2) != 0 {
 				viol("h2fp-on-h1", "HTTP/1.1 request %s carries X-HTTP2-Fingerprint %v", r.Path, h2)
+			}
+			if w.abandoned[r.Path] {
+				continue
 			}
 			obs = append(obs, r.Path)
 			triples[first(j3)+"|"+first(j4)+"|"+first(h2)] = true
